@@ -1,18 +1,457 @@
-//! C30 part (b): IoQueue probe cases and black-box concurrent cases (stub: filled in after part (a) is green)
+//! C30 part (b): IoQueue probe cases (`q …`) and black-box concurrent cases (`conc …`).
+//!
+//!   q new cap=<c> buf=<b>                 fresh `IoQueue` behind the verif probe
+//!   q push id=<i> prio=<p> bytes=<n>      IoQueue::push of a task reading i..i+n
+//!   q next <id|none>                      IoQueueState::next_task; the token records what the implementation returned when
+//!                                         the case was generated (the heap's tie-break among equal priorities is unspecified;
+//!                                         the model checks that this choice is allowed)
+//!   q iop_done <id>                       the task's completion callback + IoQueue::on_iop_complete
+//!   q consumed <id,id,…>                  one IoQueue::on_bytes_consumed(sum bytes, prio, count) for tasks of one priority
+//!   q close                               IoQueue::close
+//!     -> `[popped=<id|none> |cancelled=<ids> ]iops=<n> bytes=<n> pend=<prio:id,…> fl=<prios> done=<bool>`
+//!   conc cap=<c> buf=<b> bs=<bs> max=<m> mode=<join|seq|drop> | <prio>:<ranges> | …
+//!     -> per request `ok n=<k> <len>:<hash>;…` / `err` / `panic`, joined by ` | `; `hang` if the case does not finish
+
+use std::collections::BTreeMap;
+use std::ops::Range;
+use std::panic::{catch_unwind, AssertUnwindSafe};
+use std::sync::Arc;
+use std::time::Duration;
+
 use hcommon::*;
+use lance_io::scheduler::verif_hooks::{ProbeTask, QueueProbe};
+use lance_io::traits::Reader;
+
+use super::{kv, parse_ranges, show_ranges};
+
+#[derive(Clone, Copy, Debug)]
+struct T {
+    id: u64,
+    prio: u64,
+    bytes: u64,
+}
 
 #[derive(Default)]
-pub struct QState {}
+pub struct QState {
+    probe: Option<QueueProbe>,
+    cap: u64,
+    buf: i64,
+    tasks: BTreeMap<u64, T>,
+    pending: Vec<u64>,
+    held: BTreeMap<u64, ProbeTask>, // handed out, IOP running
+    delivered: Vec<u64>,            // handed out, not consumed (superset of held)
+    refused_once: bool,
+}
 
-pub fn gen_queue_case(_r: &mut Rng) -> Vec<String> {
-    vec!["req bs=0 max=5 0-10,3-3,12-20".into()]
+fn dump(p: &QueueProbe) -> String {
+    let mut pend: Vec<(u128, u64)> = p.pending().into_iter().map(|(pr, r)| (pr, r.start)).collect();
+    pend.sort();
+    let pend_s = if pend.is_empty() {
+        "-".to_string()
+    } else {
+        pend.iter().map(|(pr, id)| format!("{pr}:{id}")).collect::<Vec<_>>().join(",")
+    };
+    let fl = p.priorities_in_flight();
+    format!(
+        "iops={} bytes={} pend={} fl={} done={}",
+        p.iops_avail(),
+        p.bytes_avail(),
+        pend_s,
+        show_nat_list(fl.iter().map(|x| *x as u64)),
+        p.done_scheduling()
+    )
 }
-pub fn gen_conc_case(_r: &mut Rng, _default_max: u64) -> Vec<String> {
-    vec!["req bs=1 max=5 0-10,11-20".into()]
+
+/// the invariants of the property, evaluated on the real queue after every event (independent of the Lean model)
+fn check_accounting(q: &QState, line: usize, res: &mut CaseResult) {
+    let p = q.probe.as_ref().unwrap();
+    let mut fail = |what: String, key: &str| {
+        res.failures.push(OracleFailure { what, key: Some(key.into()), line });
+    };
+    if p.iops_avail() as u64 + q.held.len() as u64 != q.cap {
+        fail(format!("iops_avail {} + running {} != capacity {}", p.iops_avail(), q.held.len(), q.cap), "queue_iops_accounting");
+    }
+    let out: i64 = q.delivered.iter().map(|i| q.tasks[i].bytes as i64).sum();
+    if p.bytes_avail() + out != q.buf {
+        fail(format!("bytes_avail {} + delivered-unconsumed {} != budget {}", p.bytes_avail(), out, q.buf), "queue_bytes_accounting");
+    }
+    let fl = p.priorities_in_flight();
+    let mut want: Vec<u128> = q.delivered.iter().map(|i| q.tasks[i].prio as u128).collect();
+    want.sort();
+    if fl != want {
+        fail(format!("priorities in flight {fl:?} != priorities of delivered-unconsumed tasks {want:?}"), "queue_priorities_in_flight");
+    }
+    let mut pend: Vec<u64> = p.pending().into_iter().map(|(_, r)| r.start).collect();
+    pend.sort();
+    let mut mine = q.pending.clone();
+    mine.sort();
+    if pend != mine {
+        fail(format!("pending tasks {pend:?} != pushed-and-not-handed-out {mine:?} (a task was lost or duplicated)"), "queue_task_lost");
+    }
 }
-pub fn exec_q(_q: &mut QState, _rt: &tokio::runtime::Runtime, _data: &[u8], _toks: &[&str], _n: usize, _res: &mut CaseResult) -> String {
-    "bad-op".into()
+
+pub fn exec_q(q: &mut QState, reader: &Arc<dyn Reader>, toks: &[&str], n: usize, res: &mut CaseResult) -> String {
+    let op = toks.get(1).copied().unwrap_or("");
+    if op == "new" {
+        let (Some(cap), Some(buf)) = (
+            toks.get(2).and_then(|t| kv(t, "cap")).and_then(|v| v.parse::<u64>().ok()),
+            toks.get(3).and_then(|t| kv(t, "buf")).and_then(|v| v.parse::<u64>().ok()),
+        ) else {
+            return "bad-op".into();
+        };
+        *q = QState::default();
+        q.cap = cap;
+        q.buf = buf as i64;
+        q.probe = Some(QueueProbe::new(cap as u32, buf, reader.clone()));
+        return dump(q.probe.as_ref().unwrap());
+    }
+    if q.probe.is_none() {
+        return "bad-op".into();
+    }
+    let out = match op {
+        "push" => {
+            let (Some(id), Some(prio), Some(bytes)) = (
+                toks.get(2).and_then(|t| kv(t, "id")).and_then(|v| v.parse::<u64>().ok()),
+                toks.get(3).and_then(|t| kv(t, "prio")).and_then(|v| v.parse::<u64>().ok()),
+                toks.get(4).and_then(|t| kv(t, "bytes")).and_then(|v| v.parse::<u64>().ok()),
+            ) else {
+                return "bad-op".into();
+            };
+            q.tasks.insert(id, T { id, prio, bytes });
+            q.pending.push(id);
+            q.probe.as_ref().unwrap().push(id..id + bytes, prio as u128);
+            res.tags.push("q_push".into());
+            dump(q.probe.as_ref().unwrap())
+        }
+        "next" => {
+            let p = q.probe.as_ref().unwrap();
+            let min_pending = q.pending.iter().map(|i| q.tasks[i].prio).min();
+            let iops_before = p.iops_avail();
+            let bytes_before = p.bytes_avail();
+            let fl_before = p.priorities_in_flight();
+            match p.next_task() {
+                Some(t) => {
+                    let id = t.to_read().start;
+                    let me = q.tasks.get(&id).copied();
+                    // oracle: a pending task, of minimal priority, admitted by the rules of the property
+                    let ok_task = me.map(|m| q.pending.contains(&id) && t.priority() == m.prio as u128 && t.num_bytes() == m.bytes).unwrap_or(false);
+                    if !ok_task {
+                        res.failures.push(OracleFailure { what: format!("next_task returned an unknown / non-pending task {id}"), key: Some("queue_task_lost".into()), line: n });
+                    } else {
+                        let m = me.unwrap();
+                        if Some(m.prio) != min_pending {
+                            res.failures.push(OracleFailure { what: format!("next_task returned priority {} while priority {:?} is pending", m.prio, min_pending), key: Some("queue_priority_order".into()), line: n });
+                        }
+                        let bypass = fl_before.first().map(|f| m.prio as u128 <= *f).unwrap_or(true);
+                        if iops_before == 0 || (!bypass && m.bytes as i64 > bytes_before) {
+                            res.failures.push(OracleFailure { what: format!("task {id} admitted with iops_avail={iops_before} bytes_avail={bytes_before} in flight {fl_before:?}"), key: Some("queue_admission".into()), line: n });
+                        }
+                        if !bypass {
+                            res.tags.push("q_next_within_budget".into());
+                        } else if m.bytes as i64 > bytes_before {
+                            res.tags.push("q_next_priority_bypass".into());
+                        }
+                    }
+                    q.pending.retain(|x| *x != id);
+                    q.delivered.push(id);
+                    q.held.insert(id, t);
+                    res.tags.push("q_next_some".into());
+                    if q.refused_once {
+                        res.nontrivial = true;
+                    }
+                    format!("popped={id} {}", dump(q.probe.as_ref().unwrap()))
+                }
+                None => {
+                    // oracle (no stuck state): with a pending task, a refusal must leave an enabled event that makes progress
+                    if let Some(mp) = min_pending {
+                        q.refused_once = true;
+                        let lower_delivered = q.delivered.iter().any(|i| q.tasks[i].prio < mp);
+                        if q.held.is_empty() && !lower_delivered {
+                            res.failures.push(OracleFailure {
+                                what: format!("stuck: next_task refused priority {mp} with no IOP running and no delivered task of smaller priority (iops_avail={iops_before} bytes_avail={bytes_before})"),
+                                key: Some("queue_stuck".into()),
+                                line: n,
+                            });
+                        }
+                        res.tags.push(if iops_before == 0 { "q_next_refused_iops".into() } else { "q_next_refused_bytes".into() });
+                    } else {
+                        res.tags.push("q_next_empty".into());
+                    }
+                    format!("popped=none {}", dump(p))
+                }
+            }
+        }
+        "iop_done" => {
+            let Some(id) = toks.get(2).and_then(|v| v.parse::<u64>().ok()) else { return "bad-op".into() };
+            let Some(t) = q.held.remove(&id) else { return "not-enabled".into() };
+            t.complete(true);
+            let p = q.probe.as_ref().unwrap();
+            p.on_iop_complete();
+            let fin = p.take_finished();
+            if fin != vec![(id, true)] {
+                res.failures.push(OracleFailure { what: format!("completion callbacks {fin:?} after completing task {id}"), key: Some("queue_callback".into()), line: n });
+            }
+            res.tags.push("q_iop_done".into());
+            dump(p)
+        }
+        "consumed" => {
+            let Some(ids) = toks.get(2).and_then(|v| parse_nat_list(v)) else { return "bad-op".into() };
+            if ids.is_empty() || ids.iter().any(|i| !q.delivered.contains(i) || q.held.contains_key(i)) {
+                return "not-enabled".into();
+            }
+            let prio = q.tasks[&ids[0]].prio;
+            if ids.iter().any(|i| q.tasks[i].prio != prio) {
+                return "bad-op".into();
+            }
+            let mut seen = ids.clone();
+            seen.sort();
+            seen.dedup();
+            if seen.len() != ids.len() {
+                return "not-enabled".into();
+            }
+            let bytes: u64 = ids.iter().map(|i| q.tasks[i].bytes).sum();
+            q.probe.as_ref().unwrap().on_bytes_consumed(bytes, prio as u128, ids.len());
+            q.delivered.retain(|x| !ids.contains(x));
+            res.tags.push(if ids.len() > 1 { "q_consumed_batch".into() } else { "q_consumed".into() });
+            dump(q.probe.as_ref().unwrap())
+        }
+        "close" => {
+            let p = q.probe.as_ref().unwrap();
+            p.close();
+            let mut fin = p.take_finished();
+            fin.sort();
+            let mut want: Vec<(u64, bool)> = q.pending.iter().map(|i| (*i, false)).collect();
+            want.sort();
+            if fin != want {
+                res.failures.push(OracleFailure { what: format!("close cancelled {fin:?}, pending were {want:?}"), key: Some("queue_close_cancels".into()), line: n });
+            }
+            if p.next_task().is_some() || !p.done_scheduling() {
+                res.failures.push(OracleFailure { what: "after close next_task still hands out a task / done_scheduling unset".into(), key: Some("queue_close_cancels".into()), line: n });
+            }
+            q.pending.clear();
+            res.tags.push("q_close".into());
+            format!("cancelled={} {}", show_nat_list(fin.iter().map(|x| x.0)), dump(p))
+        }
+        _ => return "bad-op".into(),
+    };
+    check_accounting(q, n, res);
+    out
 }
-pub fn exec_conc(_c: &mut super::C30, _toks: &[&str], _n: usize, _res: &mut CaseResult) -> String {
-    "bad-op".into()
+
+/// Generates a queue case by driving a real probe: the `next` lines record what the implementation handed out.
+pub fn gen_queue_case(r: &mut Rng, reader: &Arc<dyn Reader>) -> Vec<String> {
+    let cap = 1 + r.below(3);
+    let buf = *r.pick(&[0u64, 1, 4, 8, 16, 32, 64]);
+    let mut lines = vec![format!("q new cap={cap} buf={buf}")];
+    let probe = QueueProbe::new(cap as u32, buf, reader.clone());
+    let mut tasks: BTreeMap<u64, T> = BTreeMap::new();
+    let mut held: BTreeMap<u64, ProbeTask> = BTreeMap::new();
+    let mut completed: Vec<u64> = vec![]; // delivered, IOP done, not consumed
+    let mut next_id = 0u64;
+    let nprio = 1 + r.below(4);
+    let n = 20 + r.usize(41);
+    let mut closed = false;
+    for _ in 0..n {
+        match r.below(20) {
+            0..=5 if !closed || r.chance(1, 4) => {
+                // a request = 1-3 tasks of one priority
+                let prio = r.below(nprio) * 3;
+                for _ in 0..1 + r.below(3) {
+                    let bytes = *r.pick(&[0u64, 1, 2, 4, 8, 8, 16, 40]);
+                    let id = next_id;
+                    next_id += 50;
+                    tasks.insert(id, T { id, prio, bytes });
+                    probe.push(id..id + bytes, prio as u128);
+                    lines.push(format!("q push id={id} prio={prio} bytes={bytes}"));
+                }
+            }
+            6..=11 => match probe.next_task() {
+                Some(t) => {
+                    let id = t.to_read().start;
+                    lines.push(format!("q next {id}"));
+                    held.insert(id, t);
+                }
+                None => lines.push("q next none".into()),
+            },
+            12..=15 => {
+                if !held.is_empty() {
+                    let ids: Vec<u64> = held.keys().copied().collect();
+                    let id = *r.pick(&ids);
+                    held.remove(&id).unwrap().complete(true);
+                    probe.on_iop_complete();
+                    completed.push(id);
+                    lines.push(format!("q iop_done {id}"));
+                }
+            }
+            16..=18 => {
+                if !completed.is_empty() {
+                    let first = *r.pick(&completed);
+                    let prio = tasks[&first].prio;
+                    let mut ids: Vec<u64> = if r.chance(1, 2) {
+                        completed.iter().copied().filter(|i| tasks[i].prio == prio).collect()
+                    } else {
+                        vec![first]
+                    };
+                    ids.truncate(3);
+                    let bytes: u64 = ids.iter().map(|i| tasks[i].bytes).sum();
+                    probe.on_bytes_consumed(bytes, prio as u128, ids.len());
+                    completed.retain(|x| !ids.contains(x));
+                    lines.push(format!("q consumed {}", show_nat_list(ids)));
+                }
+            }
+            _ => {
+                if !closed && r.chance(1, 3) {
+                    probe.close();
+                    closed = true;
+                    lines.push("q close".into());
+                }
+            }
+        }
+    }
+    // drain: everything handed out completes and is consumed, then the queue must hand out again
+    let ids: Vec<u64> = held.keys().copied().collect();
+    for id in ids {
+        held.remove(&id).unwrap().complete(true);
+        probe.on_iop_complete();
+        completed.push(id);
+        lines.push(format!("q iop_done {id}"));
+    }
+    for id in completed.drain(..) {
+        let t = tasks[&id];
+        probe.on_bytes_consumed(t.bytes, t.prio as u128, 1);
+        lines.push(format!("q consumed {id}"));
+    }
+    match probe.next_task() {
+        Some(t) => lines.push(format!("q next {}", t.to_read().start)),
+        None => lines.push("q next none".into()),
+    }
+    if !closed {
+        lines.push("q close".into());
+    }
+    lines
+}
+
+pub fn gen_conc_case(r: &mut Rng, default_max: u64) -> Vec<String> {
+    let mut lines = vec![];
+    for _ in 0..2 {
+        let cap = 1 + r.below(3);
+        let buf = *r.pick(&[1u64, 8, 50, 200]);
+        let bs = *r.pick(&[0u64, 4, 64]);
+        let max = *r.pick(&[3u64, 16, 50, default_max]);
+        let mode = *r.pick(&["join", "join", "seq", "seq", "drop"]);
+        let k = 2 + r.usize(4);
+        let mut reqs = vec![];
+        for _ in 0..k {
+            let prio = r.below(4);
+            let rs = super::gen_sorted_ranges(r, false, max, bs);
+            reqs.push(format!("{prio}:{}", show_ranges(&rs)));
+        }
+        lines.push(format!("conc cap={cap} buf={buf} bs={bs} max={max} mode={mode} | {}", reqs.join(" | ")));
+    }
+    lines
+}
+
+pub fn exec_conc(c: &mut super::C30, toks: &[&str], n: usize, res: &mut CaseResult) -> String {
+    if toks.len() < 8 || toks[6] != "|" {
+        return "bad-op".into();
+    }
+    let (Some(cap), Some(buf), Some(bs), Some(max), Some(mode)) = (
+        kv(toks[1], "cap").and_then(|v| v.parse::<usize>().ok()),
+        kv(toks[2], "buf").and_then(|v| v.parse::<u64>().ok()),
+        kv(toks[3], "bs").and_then(|v| v.parse::<u64>().ok()),
+        kv(toks[4], "max").and_then(|v| v.parse::<u64>().ok()),
+        kv(toks[5], "mode"),
+    ) else {
+        return "bad-op".into();
+    };
+    if cap == 0 || max == 0 {
+        return "bad-op".into();
+    }
+    let mut reqs: Vec<(u64, Vec<Range<u64>>)> = vec![];
+    for t in toks[7..].iter().filter(|t| **t != "|") {
+        let Some((p, rs)) = t.split_once(':') else { return "bad-op".into() };
+        let (Some(p), Some(rs)) = (p.parse::<u64>().ok(), parse_ranges(rs)) else { return "bad-op".into() };
+        if rs.iter().any(|r| r.start > r.end || r.end > super::FILE_LEN) {
+            return "bad-op".into();
+        }
+        reqs.push((p, rs));
+    }
+    let (fs0, sched, default_max) = c.store_with(bs, cap, buf);
+    let fs = if max == default_max { fs0.clone() } else { lance_io::scheduler::verif_hooks::with_max_iop_size(&fs0, max) };
+    drop(fs0); // every FileScheduler holds the ScanScheduler alive
+    // submit everything first (the tasks are queued; the I/O loop only runs inside block_on)
+    let mut futs = vec![];
+    for (p, rs) in &reqs {
+        futs.push(fs.submit_request(rs.clone(), *p));
+    }
+    let mut order: Vec<usize> = (0..reqs.len()).collect();
+    let drop_mode = mode == "drop";
+    // the scheduler is dropped before any I/O ran (mode drop) or kept alive until the I/O is done
+    let mut keep = Some((fs, sched));
+    if drop_mode {
+        keep = None;
+    } else if mode == "seq" {
+        order.sort_by_key(|i| reqs[*i].0);
+    }
+    let rt = c.rt();
+    let seq = mode == "seq";
+    let out = catch_unwind(AssertUnwindSafe(|| {
+        rt.block_on(async move {
+            tokio::time::timeout(Duration::from_secs(15), async move {
+                let mut slots: Vec<Option<lance_core::Result<Vec<bytes::Bytes>>>> = (0..futs.len()).map(|_| None).collect();
+                if seq {
+                    let mut fs_: Vec<Option<_>> = futs.into_iter().map(Some).collect();
+                    for i in order {
+                        slots[i] = Some(fs_[i].take().unwrap().await);
+                    }
+                } else {
+                    let rs = futures::future::join_all(futs).await;
+                    for (i, r) in rs.into_iter().enumerate() {
+                        slots[i] = Some(r);
+                    }
+                }
+                slots
+            })
+            .await
+        })
+    }));
+    drop(keep);
+    res.tags.push(format!("conc_{mode}"));
+    match out {
+        Err(_) => {
+            res.failures.push(OracleFailure { what: "panic while awaiting concurrent requests".into(), key: Some(if reqs.iter().all(|(_, rs)| super::nonempty_sorted(rs)) { "response_mismatch" } else { "unsorted_ranges" }.into()), line: n });
+            "panic".into()
+        }
+        Ok(Err(_)) => {
+            res.failures.push(OracleFailure { what: format!("requests did not complete within 15 s (cap={cap} buf={buf} mode={mode})"), key: Some("hang".into()), line: n });
+            "hang".into()
+        }
+        Ok(Ok(slots)) => {
+            let mut outs = vec![];
+            for (i, s) in slots.into_iter().enumerate() {
+                let rs = &reqs[i].1;
+                let sorted = super::nonempty_sorted(rs);
+                match s.unwrap() {
+                    Ok(bufs) => {
+                        if let Some(what) = c.judge(rs, &bufs) {
+                            res.failures.push(OracleFailure { what: format!("concurrent request {i}: {what}"), key: Some(if sorted { "response_mismatch" } else { "unsorted_ranges" }.into()), line: n });
+                        }
+                        if drop_mode && rs.iter().any(|r| r.start < r.end) {
+                            res.failures.push(OracleFailure { what: format!("request {i} completed with data although the scheduler was dropped before any I/O ran"), key: Some("drop_cancels".into()), line: n });
+                        }
+                        let body: Vec<String> = bufs.iter().map(|b| format!("{}:{}", b.len(), super::hash_buf(b))).collect();
+                        outs.push(format!("ok n={} {}", bufs.len(), if body.is_empty() { "-".into() } else { body.join(";") }));
+                    }
+                    Err(e) => {
+                        if !drop_mode {
+                            res.failures.push(OracleFailure { what: format!("concurrent request {i} failed: {e}"), key: Some(if sorted { "response_mismatch" } else { "unsorted_ranges" }.into()), line: n });
+                        }
+                        outs.push("err".into());
+                    }
+                }
+            }
+            res.nontrivial = true;
+            outs.join(" | ")
+        }
+    }
 }
